@@ -246,7 +246,7 @@ def normalise(j):
     """transform the fact JSON in place; returns a list of notes"""
     notes = []
     if not os.path.exists(KNOWN):
-        return desugar_combinators(j) + inline_local_closure_calls(j)
+        return desugar_combinators(j) + inline_local_closure_calls(j) + desugar_iter_closures(j) + desugar_prim_ops(j)
     known = json.load(open(KNOWN))
     kpaths = {k['path']: k for k in known}
     fns = j['functions']
@@ -296,7 +296,7 @@ def normalise(j):
     new = [f for f in new if 'renamed_from' not in f or f['path'] in FORCE_INLINE]
     newp = {f['path']: f for f in new}
     if not newp:
-        return notes + desugar_combinators(j) + inline_local_closure_calls(j) + unroll_array_folds(j) + unroll_array_folds(j)
+        return notes + desugar_combinators(j) + inline_local_closure_calls(j) + unroll_array_folds(j) + unroll_array_folds(j) + desugar_iter_closures(j) + desugar_prim_ops(j)
     # recursion among new helpers: never inline a helper that can reach itself
     calls = {p: {b['term'].get('resolved') or b['term'].get('callee') for b in f['blocks'] if b['term']['k'] == 'call'} & set(newp) for p, f in newp.items()}
 
@@ -361,7 +361,7 @@ def normalise(j):
         notes.append('new helper %s inlined at %d call site(s)%s' % (p, count[p], '' if p in drop else ' (still referenced elsewhere: kept as a function too)'))
     if drop:
         j['functions'] = [f for f in fns if f['path'] not in drop]
-    return notes + desugar_combinators(j) + inline_local_closure_calls(j) + unroll_array_folds(j)
+    return notes + desugar_combinators(j) + inline_local_closure_calls(j) + unroll_array_folds(j) + desugar_iter_closures(j) + desugar_prim_ops(j)
 
 
 # ---------------------------------------------------------------------------
@@ -710,6 +710,239 @@ def desugar_combinators(j):
     return notes
 
 
+# ---------------------------------------------------------------------------
+# iterator consumers with a closure: `it.for_each(|x| body)`, `it.fold(init, |acc, x| body)`,
+# `it.try_fold(init, |acc, x| body)`, `it.try_for_each(|x| body)` are rewritten into the loop they stand for
+# (`loop { match it.next() { Some(x) => body, None => break } }`, the shape a `for` loop lowers to), with the
+# closure body inlined, so loop rules see the same control and data flow as in the `for` spelling.
+# ---------------------------------------------------------------------------
+CF = ('std::ops::ControlFlow', [['0', 'Continue'], ['1', 'Break']])
+ITER_CONSUMERS = {
+    'std::iter::Iterator::for_each': ('value', False, False),
+    'std::iter::Iterator::fold': ('value', True, False),
+    'std::iter::Iterator::try_for_each': ('ref', False, True),
+    'std::iter::Iterator::try_fold': ('ref', True, True),
+    'std::iter::Iterator::find': ('ref', False, 'find'),
+}
+
+
+def desugar_iter_closures(j):
+    notes = []
+    fns_by_path = {}
+    for f in j['functions']:
+        fns_by_path.setdefault(f['path'], f)
+    count = {}
+    for f in j['functions']:
+        bi = 0
+        while bi < len(f['blocks']):
+            blk = f['blocks'][bi]
+            t = blk['term']
+            bi += 1
+            if t['k'] != 'call' or blk.get('cleanup') or t.get('target') is None or t['dest']['p']:
+                continue
+            spec = ITER_CONSUMERS.get(t.get('callee') or '')
+            if spec is None:
+                continue
+            how, has_acc, is_try = spec
+            args = t['args']
+            if len(args) != (3 if has_acc else 2):
+                continue
+            it_op, clo_op = args[0], args[-1]
+            init_op = args[1] if has_acc else None
+            got = _closure_of(f, clo_op, fns_by_path)
+            env = 1
+            if got is None and clo_op.get('k') == 'const' and clo_op.get('fn'):
+                # a named function of the crate handed to the adaptor (`for_each(wake_one)`)
+                g_ = fns_by_path.get(clo_op.get('fn_full') or clo_op['fn']) or fns_by_path.get(clo_op['fn'])
+                if g_ is not None and g_.get('kind') != 'closure':
+                    got, env = (None, g_), 0
+            if got is None or 'l' not in it_op:
+                continue
+            clo_local, g = got
+            if len(g['blocks']) > MAX_BLOCKS:
+                continue
+            nparams = g['arg_count'] - env
+            if nparams != (2 if has_acc else 1):
+                continue
+            span = t.get('span')
+            dest, target = t['dest'], t['target']
+            ret_ty = g['locals'][0]['ty']
+            elem_ty = g['locals'][(2 if has_acc else 1) + env]['ty']
+            is_find = is_try == 'find'
+            if is_find:
+                # the predicate of `find` looks at `&Item`
+                if not elem_ty.startswith('&') or ret_ty != 'bool':
+                    continue
+                par_ty, elem_ty = elem_ty, re.sub(r"^&('\S+ )?", '', elem_ty)
+                is_try = False
+            acc_ty = g['locals'][1 + env]['ty'] if has_acc else ''
+            # how a `try` closure reports: Option / Result / ControlFlow
+            tri = None
+            if is_try:
+                if ret_ty.startswith('std::option::Option<'):
+                    tri = (OPT, 1, 0)          # (adt, continue variant, break variant)
+                elif ret_ty.startswith('std::result::Result<'):
+                    tri = (RES, 0, 1)
+                elif ret_ty.startswith('std::ops::ControlFlow<'):
+                    tri = (CF, 0, 1)
+                else:
+                    continue
+            # the iterator in a local; a `&mut` to it for every `next`
+            if it_op['p']:
+                it_local = _new_local(f, it_op.get('ty', ''))
+                blk['stmts'].append(_assign(_pl(it_local, it_op.get('ty', '')), {'k': 'use', 'op': it_op}, span))
+            else:
+                it_local = it_op['l']
+            it_ty = f['locals'][it_local]['ty']
+            if has_acc:
+                acc_local = _new_local(f, acc_ty)
+                blk['stmts'].append(_assign(_pl(acc_local, acc_ty), {'k': 'use', 'op': init_op}, span))
+            head_bb = len(f['blocks'])
+            f['blocks'].append({'cleanup': False, 'stmts': [], 'term': None, 'desugared': t.get('callee')})
+            sw_bb = len(f['blocks'])
+            f['blocks'].append({'cleanup': False, 'stmts': [], 'term': None, 'desugared': t.get('callee')})
+            body_bb = len(f['blocks'])
+            f['blocks'].append({'cleanup': False, 'stmts': [], 'term': None, 'desugared': t.get('callee')})
+            after_bb = len(f['blocks'])
+            f['blocks'].append({'cleanup': False, 'stmts': [], 'term': None, 'desugared': t.get('callee')})
+            exit_bb = len(f['blocks'])
+            f['blocks'].append({'cleanup': False, 'stmts': [], 'term': {'k': 'goto', 'target': target, 'span': span}, 'desugared': t.get('callee')})
+            head, sw, body, after, exit_ = (f['blocks'][x] for x in (head_bb, sw_bb, body_bb, after_bb, exit_bb))
+            blk['term'] = {'k': 'goto', 'target': head_bb, 'span': span}
+            opt_ty = 'std::option::Option<%s>' % elem_ty
+            nxt = _new_local(f, opt_ty)
+            if how == 'value':
+                ref_ty = '&mut ' + it_ty
+                ref_local = _new_local(f, ref_ty)
+                head['stmts'].append(_assign(_pl(ref_local, ref_ty), {'k': 'ref', 'mut': True, 'place': _pl(it_local, it_ty)}, span))
+                ref_op = _use(ref_local, ref_ty)
+            else:
+                ref_op = _use(it_local, it_ty, 'copy')
+            head['term'] = {'k': 'call', 'callee': 'std::iter::Iterator::next', 'callee_full': 'std::iter::Iterator::next', 'resolved': None, 'args': [ref_op],
+                            'func': {'k': 'const', 'ty': '', 'text': 'std::iter::Iterator::next', 'fn': 'std::iter::Iterator::next', 'fn_full': 'std::iter::Iterator::next'},
+                            'dest': _pl(nxt, opt_ty), 'target': sw_bb, 'unwind': None, 'span': span}
+            d_local = _new_local(f, 'isize')
+            sw['stmts'].append(_assign(_pl(d_local, 'isize'), {'k': 'discr', 'place': _pl(nxt, opt_ty), 'adt': OPT[0], 'variants': OPT[1]}, span))
+            sw['term'] = {'k': 'switch', 'discr': _use(d_local, 'isize'), 'discr_ty': 'isize', 'targets': [['1', body_bb]], 'otherwise': exit_bb, 'span': span}
+            env_ty = g['locals'][1]['ty'] if len(g['locals']) > 1 else ''
+            if not env:
+                env_op = None
+            elif env_ty.startswith('&'):
+                e_local = _new_local(f, env_ty)
+                body['stmts'].append(_assign(_pl(e_local, env_ty), {'k': 'ref', 'mut': env_ty.startswith('&mut'), 'place': _pl(clo_local, f['locals'][clo_local]['ty'])}, span))
+                env_op = _use(e_local, env_ty)
+            else:
+                env_op = _use(clo_local, f['locals'][clo_local]['ty'])
+            call_args = [env_op] if env else []
+            if has_acc:
+                call_args.append(_use(acc_local, acc_ty))
+            item_proj = [{'k': 'downcast', 'variant': 'Some', 'vidx': 1}, {'k': 'field', 'i': 0, 'ty': elem_ty, 'name': '0'}]
+            if is_find:
+                rf = _new_local(f, par_ty)
+                body['stmts'].append(_assign(_pl(rf, par_ty), {'k': 'ref', 'mut': False, 'place': _pl(nxt, elem_ty, item_proj)}, span))
+                call_args.append(_use(rf, par_ty))
+            else:
+                call_args.append(_use(nxt, elem_ty, 'move', item_proj))
+            res_local = _new_local(f, ret_ty)
+            body['term'] = {'k': 'call', 'callee': g['path'], 'resolved': g['path'], 'args': call_args, 'dest': _pl(res_local, ret_ty), 'target': after_bb, 'unwind': None, 'span': span}
+            d_ty = dest.get('ty', '')
+            if is_find:
+                # true: the item is the result; false: next item; exhausted: None
+                brk_bb = len(f['blocks'])
+                f['blocks'].append({'cleanup': False, 'stmts': [_assign(dest, _agg(OPT[0], 'Some', 1, [_use(nxt, elem_ty, 'move', item_proj)], d_ty), span)],
+                                    'term': {'k': 'goto', 'target': target, 'span': span}, 'desugared': t.get('callee')})
+                after['term'] = {'k': 'switch', 'discr': _use(res_local, 'bool'), 'discr_ty': 'bool', 'targets': [['0', head_bb]], 'otherwise': brk_bb, 'span': span}
+                exit_['stmts'].append(_assign(dest, _agg(OPT[0], 'None', 0, [], d_ty), span))
+            elif not is_try:
+                if has_acc:
+                    after['stmts'].append(_assign(_pl(acc_local, acc_ty), {'k': 'use', 'op': _use(res_local, ret_ty)}, span))
+                    exit_['stmts'].append(_assign(dest, {'k': 'use', 'op': _use(acc_local, acc_ty)}, span))
+                after['term'] = {'k': 'goto', 'target': head_bb, 'span': span}
+            else:
+                (adt, variants), cont_v, brk_v = tri
+                names = dict((int(a), b) for a, b in variants)
+                d2 = _new_local(f, 'isize')
+                after['stmts'].append(_assign(_pl(d2, 'isize'), {'k': 'discr', 'place': _pl(res_local, ret_ty), 'adt': adt, 'variants': variants}, span))
+                cont_bb = len(f['blocks'])
+                f['blocks'].append({'cleanup': False, 'stmts': [], 'term': {'k': 'goto', 'target': head_bb, 'span': span}, 'desugared': t.get('callee')})
+                brk_bb = len(f['blocks'])
+                f['blocks'].append({'cleanup': False, 'stmts': [], 'term': {'k': 'goto', 'target': target, 'span': span}, 'desugared': t.get('callee')})
+                after['term'] = {'k': 'switch', 'discr': _use(d2, 'isize'), 'discr_ty': 'isize', 'targets': [[str(cont_v), cont_bb]], 'otherwise': brk_bb, 'span': span}
+                cont, brk = f['blocks'][cont_bb], f['blocks'][brk_bb]
+                payload = lambda v: _use(res_local, '', 'move', [{'k': 'downcast', 'variant': names[v], 'vidx': v}, {'k': 'field', 'i': 0, 'ty': '', 'name': '0'}])
+                if has_acc:
+                    cont['stmts'].append(_assign(_pl(acc_local, acc_ty), {'k': 'use', 'op': payload(cont_v)}, span))
+                    exit_['stmts'].append(_assign(dest, _agg(adt, names[cont_v], cont_v, [_use(acc_local, acc_ty)], d_ty), span))
+                else:
+                    exit_['stmts'].append(_assign(dest, _agg(adt, names[cont_v], cont_v, [{'k': 'const', 'ty': '()', 'text': 'const ()', 'val': None}], d_ty), span))
+                if adt == OPT[0]:
+                    brk['stmts'].append(_assign(dest, _agg(adt, 'None', 0, [], d_ty), span))
+                else:
+                    brk['stmts'].append(_assign(dest, _agg(adt, names[brk_v], brk_v, [payload(brk_v)], d_ty), span))
+            off = len(f['locals'])
+            _inline_call(f, body_bb, g)
+            if has_acc:
+                # the accumulator *is* the closure's parameter (one local that is initialised before the loop and
+                # reassigned per element, like the `let mut acc` of the `for` spelling)
+                par = off + 1 + env
+                body['stmts'] = [s_ for s_ in body['stmts'] if not (s_.get('inlined_arg') and s_['lhs']['l'] == par and not s_['lhs']['p'])]
+                holders = [blk, after, exit_] + ([f['blocks'][cont_bb]] if is_try else [])
+                for hb in holders:
+                    for s_ in hb['stmts']:
+                        if s_['k'] != 'assign':
+                            continue
+                        if s_['lhs']['l'] == acc_local and not s_['lhs']['p']:
+                            s_['lhs']['l'] = par
+                        rv_ = s_['rv']
+                        for o_ in ([rv_.get('op')] if rv_.get('op') else []) + list(rv_.get('ops') or []):
+                            if isinstance(o_, dict) and o_.get('l') == acc_local and not o_.get('p'):
+                                o_['l'] = par
+            count[t.get('callee')] = count.get(t.get('callee'), 0) + 1
+    for c, n in sorted(count.items()):
+        notes.append('iterator consumer %s with a closure rewritten as the loop it stands for at %d site(s)' % (c.rsplit('::', 1)[-1], n))
+    return notes
+
+
+
+
+# ---------------------------------------------------------------------------
+# operator traits on primitive integers through references: `flags | flag` with `flag: &u32` is the call
+# `<u32 as BitOr<&u32>>::bitor(flags, flag)`; it is the same bit operation as on the values and is written as one.
+# ---------------------------------------------------------------------------
+_PRIM = r'(?:u8|u16|u32|u64|u128|usize|i8|i16|i32|i64|i128|isize|bool)'
+_PRIM_OPS = {'std::ops::BitOr::bitor': ('BitOr', 'BitOr'), 'std::ops::BitAnd::bitand': ('BitAnd', 'BitAnd'), 'std::ops::BitXor::bitxor': ('BitXor', 'BitXor')}
+
+
+def desugar_prim_ops(j):
+    n = 0
+    for f in j['functions']:
+        for blk in f['blocks']:
+            t = blk['term']
+            if t['k'] != 'call' or t.get('target') is None or len(t.get('args') or []) != 2:
+                continue
+            spec = _PRIM_OPS.get(t.get('callee') or '')
+            if spec is None:
+                continue
+            m = re.match(r"^<(&(?:'\S+ )?)?(%s) as std::ops::%s<(&(?:'\S+ )?)?(%s)>>::\w+$" % (_PRIM, spec[0], _PRIM), t.get('callee_full') or '')
+            if not m or m.group(2) != m.group(4):
+                continue
+            ops = []
+            for isref, a in ((m.group(1), t['args'][0]), (m.group(3), t['args'][1])):
+                if not isref:
+                    ops.append(a)
+                elif 'l' in a:
+                    ops.append({'l': a['l'], 'p': list(a['p']) + [{'k': 'deref'}], 'ty': m.group(2), 'k': 'copy'})
+                else:
+                    ops = None
+                    break
+            if ops is None:
+                continue
+            blk['stmts'].append({'k': 'assign', 'lhs': t['dest'], 'rv': {'k': 'bin', 'op': spec[1], 'a': ops[0], 'b': ops[1]}, 'span': t.get('span'), 'text': 'operator on primitives'})
+            blk['term'] = {'k': 'goto', 'target': t['target'], 'span': t.get('span')}
+            n += 1
+    return ['%d operator-trait call(s) on primitive integers (through references) written as the operation' % n] if n else []
+
+
 def _single_def_stmt(f, l):
     defs = []
     for b in f['blocks']:
@@ -757,7 +990,8 @@ def unroll_array_folds(j):
                 chain.append(src)
                 a0 = src['term']['args'][0]
                 src = producer(a0['l']) if 'l' in a0 and not a0['p'] else None
-            if src is None or (src['term'].get('callee') or '') != 'std::iter::IntoIterator::into_iter' or len(src['term']['args']) != 1:
+            by_ref = src is not None and (src['term'].get('callee') or '') == 'core::slice::<impl [T]>::iter'
+            if src is None or ((src['term'].get('callee') or '') != 'std::iter::IntoIterator::into_iter' and not by_ref) or len(src['term']['args']) != 1:
                 continue
             chain.append(src)
             arr = src['term']['args'][0]
@@ -769,6 +1003,17 @@ def unroll_array_folds(j):
                 cs = [b for b in f['blocks'] if b['term']['k'] == 'call' and b['term']['dest']['l'] == local]
                 return ds[0] if len(ds) == 1 and not cs else None
             a_local = arr['l']
+            if by_ref:
+                # `table.iter()`: a slice reference to a local array (`&table as &[T]`); the items are references to its elements
+                d = single_assign(a_local)
+                if d is not None and d['rv']['k'] == 'cast' and 'l' in d['rv']['op'] and not d['rv']['op']['p']:
+                    d = single_assign(d['rv']['op']['l'])
+                if d is None or d['rv']['k'] != 'ref' or d['rv'].get('mut') or d['rv']['place']['p']:
+                    continue
+                a_local = d['rv']['place']['l']
+                # the array must not be written through between its literal and the fold
+                if any(s_['k'] == 'assign' and s_['lhs']['l'] == a_local and s_['lhs']['p'] for b in f['blocks'] for s_ in b['stmts']):
+                    continue
             d = single_assign(a_local)
             if d is not None and d['rv']['k'] == 'use' and 'l' in d['rv']['op'] and not d['rv']['op']['p']:
                 a_local = d['rv']['op']['l']
@@ -776,7 +1021,7 @@ def unroll_array_folds(j):
             if d is None or d['rv']['k'] != 'agg' or d['rv'].get('ak') != 'array' or not (1 <= len(d['rv']['ops']) <= 16):
                 continue
             n = len(d['rv']['ops'])
-            elem_ty = d['rv'].get('elem') or ''
+            elem_ty = ('&' if by_ref else '') + (d['rv'].get('elem') or '')
             span, dest, target = t.get('span'), t['dest'], t['target']
             acc_ty = dest.get('ty', '') or f['locals'][dest['l']]['ty']
             acc = _new_local(f, acc_ty)
@@ -791,7 +1036,10 @@ def unroll_array_folds(j):
             for i in range(n):
                 base = len(f['blocks'])
                 elem = _new_local(f, elem_ty)
-                head_stmts = [_assign(_pl(elem, elem_ty), {'k': 'use', 'op': _use(a_local, elem_ty, 'copy', [{'k': 'cindex', 'offset': i, 'from_end': False, 'min_length': i + 1}])}, span)]
+                if by_ref:
+                    head_stmts = [_assign(_pl(elem, elem_ty), {'k': 'ref', 'mut': False, 'place': _pl(a_local, elem_ty[1:], [{'k': 'cindex', 'offset': i, 'from_end': False, 'min_length': i + 1}])}, span)]
+                else:
+                    head_stmts = [_assign(_pl(elem, elem_ty), {'k': 'use', 'op': _use(a_local, elem_ty, 'copy', [{'k': 'cindex', 'offset': i, 'from_end': False, 'min_length': i + 1}])}, span)]
                 nxt = None  # filled below
                 if g1 is not None:
                     clo1_local, gg1 = g1
